@@ -46,7 +46,12 @@ def _substitution_mechanism(ctx, callfn) -> T.Tuple[str, str, str]:
             it = shapes.inline(callfn, n.generators[0].iter, prog)
             if any(isinstance(c, ast.Call) and unparse(c.func) == unparse(splits[0].func) for c in ast.walk(it)) and isinstance(n.generators[0].target, ast.Name):
                 cands.append(n)
-    ctx.require(len(cands) == 1, "VCSAPI.__call__: the per-token substitution (comprehension over shlex.split) was not found")
+    if not cands:
+        # the template is filled as a whole (and tokenised afterwards - the taint rule above reports that)
+        whole = [c for c in ast.walk(callfn.node) if isinstance(c, ast.Call) and isinstance(c.func, ast.Attribute) and c.func.attr in ("format", "format_map")]
+        ctx.require(len(whole) == 1, "VCSAPI.__call__: neither a per-token nor a whole-template substitution was found")
+        return "format", unparse(whole[0]) + "  (whole template)", callfn.loc(whole[0])
+    ctx.require(len(cands) == 1, "VCSAPI.__call__: several comprehensions over shlex.split")
     comp = cands[0]
     tok = comp.generators[0].target.id
     elt = shapes.inline_simple_calls(prog, callfn, comp.elt)
